@@ -717,6 +717,56 @@ def rule_TB12(rep, prog, q):
                     "on a root queue (or gets a BASE role), so it no longer runs under the serial bottom it was given", sample={"call": c.loc, "guards": len(guard)})
 
 
+def rule_MP15(rep, prog, q):
+    rid = rep.rule("C03-MP15", "a source's client handlers (registration, event, cancel) are called only by the thread that is draining the source's TARGET queue: each "
+                   "callout of _dispatch_source_invoke2 is reached only after comparing the current queue with ds->do_targetq and finding them equal (the source-side "
+                   "twin of the lane invoke's target check) - the kernel-event queue of a non-direct source is the manager, which holds none of the hierarchy's locks",
+                   floor=3)
+    fn = prog.fn("_dispatch_source_invoke2")
+    rep.saw(fn)
+    cur = {("i", c.id) for c in calls_named(fn, "_dispatch_queue_get_current")}
+    outs = calls_named(fn, ("_dispatch_source_registration_callout", "_dispatch_source_latch_and_call", "_dispatch_source_cancel_callout"))
+    if not cur or len(outs) < 3:
+        rep.unknown(rid, "_dispatch_source_invoke2: current-queue read / client callouts not found (current=%d callouts=%d)" % (len(cur), len(outs)))
+        return
+    def on_target(truth):
+        for iid, tv in truth.items():
+            t = fn.insts[iid]
+            if t.op != "icmp" or t.d["pred"] not in ("eq", "ne") or tv != (t.d["pred"] == "eq"):
+                continue
+            a, b = tuple(t.ops[0][:2]), tuple(t.ops[1][:2])
+            for x, y in ((a, b), (b, a)):
+                l = fn.inst(list(y))
+                if x in cur and l is not None and l.op == "load" and "do_targetq" in prog.fields(l) and tuple(root_ptr(fn, l.d["ptr"]["base"])[:2]) == ("a", 0):
+                    return True
+        return False
+    getters = [g_ for g_ in fn.all_insts() if g_.op == "call" and g_.callee in ("_dispatch_source_get_event_handler", "_dispatch_source_get_cancel_handler",
+                                                                                "_dispatch_source_get_registration_handler", "_dispatch_source_get_handler")]
+    def no_client_code(cx, path):
+        """every handler getter evaluated on the path returned NULL (nothing of the client's can run), and at least the cancel handler was looked at"""
+        seen = [g_ for g_ in getters if g_.block.id in path]
+        nulls = 0
+        for g_ in seen:
+            isn = any(fn.insts[iid].op == "icmp" and ("i", g_.id) in (tuple(fn.insts[iid].ops[0][:2]), tuple(fn.insts[iid].ops[1][:2]))
+                      and any(o[0] == "n" for o in fn.insts[iid].ops) and tv == (fn.insts[iid].d["pred"] == "eq") for iid, tv in cx.truth.items())
+            if not isn:
+                return False
+            nulls += 1
+        return nulls >= 1
+    for c in outs:
+        ok = on_target(paths.dom_ctx(fn, c).truth)
+        if not ok:
+            # `if (dq != target && (any handler present)) go to the target; else callout`: off the target queue only when there is no client code to run
+            idom, VR = fn.idom()
+            start = fn.blocks[idom[c.block.id]].insts[0]
+            res = [r for r in paths.walk(fn, start, lambda i: i is c) if r[0] == "hit"]
+            ok = bool(res) and all(on_target(cx.truth) or no_client_code(cx, path) for kind, inst, cx, path in res)
+        rep.require(rid, ok, c.loc, fn.name, "source-handler-off-target-queue:%s" % c.callee,
+                    "_dispatch_source_invoke2 reaches %s without having established that the current queue is the source's target queue: the handler runs on whatever "
+                    "queue is invoking the source at that step (for timers and fd sources the manager queue), outside the serial queue the source targets - "
+                    "concurrently with that hierarchy's other items" % c.callee, sample={"callout": c.loc})
+
+
 def run(rep, tier="quick", srcdir=None, only=None):
     prog, units = load(UNITS, tier, srcdir)
     rep.units = units
@@ -751,6 +801,8 @@ def run(rep, tier="quick", srcdir=None, only=None):
         rule_MP13(rep, prog, q)
     if want("C03-MP14"):
         rule_MP14(rep, prog, q)
+    if want("C03-MP15"):
+        rule_MP15(rep, prog, q)
     if want("C06-AI3"):
         # an ACTIVE queue is retargeted through the barrier path that recomputes its role; the in-place path is reserved for inactive queues by the INACTIVE
         # test of _dispatch_lane_try_inactive_suspend (shared with C06)
